@@ -49,6 +49,25 @@ def answer (line impl : String) : String × String :=
       (match parseSq a, parseSq b with
        | some a, some b => (opMBtw a b, opSBtw a b impl)
        | _, _ => ("badop", "-"))
+    | "fromchar", [ty, cp] =>
+      (match cp.toNat? with
+       | none => ("badop", "-")
+       | some n =>
+         let fmtO (o : Option Nat) : String := match o with | some i => toString i | none => "none"
+         -- the Rust functions take a `char`; the model's byte-level functions are total on naturals
+         let m : Option Nat := match ty with
+           | "file" => (Impl.fileOfByte n).map (·.val)
+           | "rank" => (Impl.rankOfByte n).map (·.val)
+           | "cell" => (Impl.cellOfByte n).map (·.val)
+           | "color" => (Impl.colorOfByte n).map Color.idx
+           | _ => none
+         let spec : Option Nat := match ty with
+           | "file" => "abcdefgh".toList.idxOf? (Char.ofNat n)
+           | "rank" => "87654321".toList.idxOf? (Char.ofNat n)
+           | "cell" => ".PKNBRQpknbrq".toList.idxOf? (Char.ofNat n)
+           | "color" => "wb".toList.idxOf? (Char.ofNat n)
+           | _ => none
+         (fmtO m, expect (fmtO spec) impl))
     | "bb", _ => opBB args impl
     | "conv", [ty] => opConv ty impl
     | "chain", _ => opChain args impl
